@@ -75,6 +75,14 @@ def generate(tier, seed):
                                    "EVAL (setq v 1) (setq w 10) (setq cnt 0) (setq s 'user-s)",
                                    "EVAL (eval (macroexpand '%s))" % F, "TICKS", "DUMP v w cnt x1 x2 x3 s"]
         nt.add(F)
+    # a form read ONCE and kept as data; its head is (re)defined as another macro / as a function / after the form was read:
+    # evaluation always uses the definition current at evaluation time, like macroexpand does
+    for body1, body2 in [("(list '+ x 10)", "(list '* x 10)"), ("(list 'list x)", "(list 'quote x)"), ("x", "(list 'car (list 'quote (list x)))")]:
+        for holder in ["(setq form '(rm 4))", "(setq form '(list (rm 4) (rm 5)))", "(setq form '(progn (rm 4)))", "(defun report (v) `(result ,(rm v))) (setq form '(report 4))",
+                       "(setq form '(let ((k (rm 2))) (rm k)))", "(setq form (list 'rm 4))", "(setq form '(funcall (lambda (q) (rm q)) 3))"]:
+            for redef in ["(defmacro rm (x) %s)" % body2, "(defun rm (x) (list 'fn x))", "(progn (defmacro rm (x) %s) (defmacro rm (x) %s))" % (body1, body2)]:
+                lines += ["NEW", "EVAL (defmacro rm (x) %s)" % body1, "EVAL " + holder, "EVAL (eval form)", "EVAL " + redef, "EVAL (eval form)",
+                          "EVAL (eval (macroexpand form))", "EVAL (equal (eval form) (eval (macroexpand form)))", "EVAL (macroexpand form)", "EVAL form"]
     # built-in macros with 0..4 plain argument forms
     for m in ["when", "unless", "if-let", "if-let*", "when-let", "while-let", "->", "->>", "thread-first", "thread-last", "quote"]:
         for k in range(0, 5):
